@@ -335,6 +335,12 @@ class Run:
         except BaseException as e:  # noqa: BLE001  faults propagate to the holder by design
             err = e
         self.trace.append((op, type(err).__name__ if err is not None else "ok"))
+        if kind == "ci" and err is not None:
+            # release = close, drop the reference, collect: a close() that raised leaves the
+            # clean-up to the finalizer of the (cyclic) Connection / fairy garbage
+            obj = None
+            err = None
+            gc.collect()
         if kind != "co" or err is not None:
             self.absorb_faults(rig, kind, how)
         # transparent reconnect of a Connection = a hand-out too
